@@ -345,6 +345,12 @@ def run_spelling(ctx):
             ctx.count("spelling:has_equal_onset_pitch")
         if any(d == 0 for _, d, _ in stored):
             ctx.count("spelling:has_zero_duration")
+        if kw:
+            ctx.count("spelling:non_default_K_pre_K_post")
+        if any(abs(al) == 2 for _, al, _ in out):
+            ctx.count("spelling:has_double_accidental")
+        if unit[1] == "i4":
+            ctx.count("spelling:integer_time_unit")
         ons = _ints([o for o, d, p in stored] + [d for o, d, p in stored])
         nn = len(stored)
         crow = clist([ctuple([cz(ons[i]), cz(stored[i][2]), cz(ons[nn + i])]) for i in range(nn)])
@@ -743,8 +749,8 @@ def run_key(ctx, K):
         terms.append(ctuple([cz(setidx), clist([ctuple([cz(stored[i][2]), cz(ds[i])]) for i in range(len(stored))]), cstr(r)]))
         case["got"] = r
         kept.append(case)
-        if len(rows) <= 6:
-            ctx.sample({"key_case": case}, limit=5)
+        if len(rows) <= 6 and len(rows) >= 2:
+            ctx.sample({"key_case": case}, limit=7)
     ctx.count("key:near_tie_skipped", near)
     ctx.log("key: implementation and oracle done, %d cases to the model" % len(terms))
     failing = _coq_failing(ctx, "key", "From PV Require Import Model.C17_Key.", terms, "key_check", 60)
@@ -889,6 +895,14 @@ def run_midi(ctx):
             continue
         if len(notes) >= 2 and len({p % 12 for o, d, p, tr, ch in notes}) >= 2:
             ctx.nontrivial(("midi", notes, case["mode"], case["estimate_key"], case["estimate_voice_info"]))
+        if any(d == 0 for o, d, p, tr, ch in notes):
+            ctx.count("midi:has_zero_length_notes")
+        if len({(tr, ch) for o, d, p, tr, ch in notes}) > 1:
+            ctx.count("midi:several_track_channel_groups")
+        if len(notes) > len({o for o, d, p, tr, ch in notes}):
+            ctx.count("midi:has_simultaneous_onsets")
+        if 2 <= len(notes) <= 5:
+            ctx.sample({"midi_case": dict(case, imported_pitches_by_distinct_onset=got)}, limit=9)
     ctx.obligation("importer: the notes of load_score_midi's score carry exactly the file's pitches, onset by onset (pitch multiset at "
                    "the k-th distinct onset, for every k; %d files, all six part/voice modes, with and without voice and key estimation)"
                    % count, nviol == 0, "")
